@@ -31,18 +31,15 @@ COUNTING = ("OBForge", "OBPoints", "OEArrays", "OEPoints", "OEValidate", "OESR",
             "OSPoints", "OSCheck", "OSChannels", "OSDuration")
 
 
-def counted_registers(prog):
-    """Registers whose sample counts the program itself computed AFTER their last mutation: only those are known to be
-    free of rounding ties at their current rates (a blueprint whose rate was changed and never forged again may hold
-    durations of exactly n + 1/2 samples, where binary64 and exact arithmetic round differently).  An element / blueprint
-    that was copied into a counted sequence / element and not touched since counts as well.  -> {"B","E","S"} sets."""
+POINTS_OBS = ("OBPoints", "OEPoints", "OEValidate", "OESR", "OEDuration", "OSPoints", "OSCheck", "OSChannels", "OSDuration")
+
+
+def _counted(prog, obs_class):
     ok = {"B": set(), "E": set(), "S": set()}
     into = {"E": set(), "B": set()}          # (container register, content register) pairs still in step
     for op in prog:
         k = op[0]
-        if k in COUNTING and k not in FORGING[:5]:
-            continue          # points / validity say nothing about marker windows: only a forge of the object counts
-        if k in FORGING[:5]:
+        if k in obs_class:
             ok[k[1]].add(op[1])
             if k[1] == "S":
                 for (q, e) in into["E"]:
@@ -76,6 +73,17 @@ def counted_registers(prog):
         elif k == "EAddBp":
             into["B"].add((op[1], op[3]))
     return ok
+
+
+def counted_registers(prog):
+    """Registers whose sample counts the program itself computed AFTER their last mutation, per way of computing them:
+    "forge" (per-segment counts, marker windows: OBForge, OEArrays, OSForge, OSAwg, OSSeqx) and "points" (round of the
+    TOTAL duration, validity: points, validateDurations, checkConsistency, channels ...).  Only those are known to be
+    free of rounding ties in that computation at their current rates - four segments of 5.1, 6.8, 11.9 and 1.7 samples
+    forge without a tie and have 25.5 points.  An element / blueprint copied into a counted sequence / element and not
+    touched since counts as well.  -> {"forge": {...}, "points": {...}, "B"/"E"/"S": both}."""
+    f, p = _counted(prog, FORGING[:5]), _counted(prog, POINTS_OBS)
+    return {"forge": f, "points": p, "B": f["B"], "E": f["E"] & p["E"], "S": f["S"] & p["S"]}
 
 
 class Shape:
@@ -178,6 +186,8 @@ class Shape:
         d[r] = {"names": [], "fns": []} if kind == "B" else ({"chans": {}} if kind == "E" else {"pos": {}})
         if hasattr(self, "ok"):
             self.ok[kind].add(r)          # built by the follow-up itself, from tie-safe values
+            self.ok["forge"][kind].add(r)
+            self.ok["points"][kind].add(r)
         return r
 
     def bp_of(self, s, pos, c):
@@ -252,6 +262,17 @@ def off_ties(d):
         if abs(x - 1) < Fraction(1, 5):
             return False          # the sub-sample test of changeDuration (dur < 1/SR) is a float comparison at exactly one sample
     return True
+
+
+def total_off_ties(b):
+    """The blueprint's point count round(total duration * SR) is away from a tie (no waituntil, numeric durations)."""
+    durs = b.get("durs", [])
+    if "waituntil" in b.get("fns", []) or len(durs) != len(b.get("names", [])) or not b.get("sr"):
+        return False
+    if not all(isinstance(d, (int, float)) and not isinstance(d, bool) for d in durs):
+        return False
+    x = sum(Fraction(d) for d in durs) * Fraction(b["sr"])
+    return abs((x - (x.numerator // x.denominator)) - Fraction(1, 2)) >= Fraction(1, 5)
 
 
 def durs_off_ties(durs, SR):
@@ -858,7 +879,7 @@ def make(rng, cases, n, max_prog=90):
         pre_obs = []
         if not any(v["chans"] for v in sh.E.values()) and safe and rng.random() < 0.6:
             # programs about blueprints only: an element around one of them (a blueprint that has its sample rate)
-            cand = [r for r, v in sh.B.items() if v["names"] and v.get("sr") and r in sh.ok["B"]]
+            cand = [r for r, v in sh.B.items() if v["names"] and v.get("sr") and r in sh.ok["B"] and total_off_ties(v)]
             if cand:
                 r = rng.choice(cand)
                 e = sh.fresh("E")
@@ -921,7 +942,11 @@ def make(rng, cases, n, max_prog=90):
             # elapsed time up to float dust (lang.wait_dust) after an edit of a duration
             descr = [("OSDescr", r) for r in sorted(sh.S)] + [("OEDescr", r) for r in sorted(sh.E)] + [("OBDescr", r) for r in sorted(sh.B)]
             def countable(o):
-                return o[0] not in COUNTING or o[1] in sh.ok[o[0][1]]
+                if o[0] in FORGING[:5]:
+                    return o[1] in sh.ok["forge"][o[0][1]] and (o[0][1] != "S" or o[1] in sh.ok["points"]["S"])
+                if o[0] in POINTS_OBS:
+                    return o[1] in sh.ok["points"][o[0][1]]
+                return True
             t = [o for o in t if countable(o)]
             obs = [o for o in obs if countable(o)]
             ob = list(obs)
